@@ -111,3 +111,15 @@ Theorem C11_reward_mixed_undecided :
     /\ nth_error (isort acct_ltb (t_wdrl t)) 0 = Some (script_account 0 (Ex.b28 Byte.x33)).
 Proof. exact reward_mixed_orders_differ. Qed.
 Print Assumptions C11_reward_mixed_undecided.
+
+(* calls that hand the builder a UTxO or a datum WITHOUT making it part of what the transaction resolves:
+   builder.collaterals.append(u), builder.reference_inputs.add(u) (a read-only reference input) and
+   add_output(o, datum=d) with add_datum_to_witness=False.  A history with such calls builds exactly what the history
+   without them builds (redeemers and pointers, witness scripts per language, witness datums, validity interval): a script
+   carried by a collateral or read-only reference UTxO never replaces a witness script, and a datum supplied for a spent
+   input is not evicted by a later output carrying an equal datum.  (The read-only reference inputs themselves join body
+   field 18: Redeemers.body_refin.) *)
+Theorem C11_inert_calls : forall native ops a,
+  run_build native ops a = run_build native (filter (fun o => negb (inert o)) ops) a.
+Proof. exact inert_calls. Qed.
+Print Assumptions C11_inert_calls.
